@@ -139,6 +139,66 @@ def signal(spec) -> np.ndarray:
     raise InfraError(f"bad signal {spec}")
 
 
+# --------------------------------------------------------------------------
+# independent references (nothing below reads the code under test)
+# --------------------------------------------------------------------------
+MODBW_TO_TR = 0.48      # documented: 10 % -> 90 % rise time [us] = 0.48 / bandwidth [MHz]
+MAX_ALLOWED_DIFF = 1e-2  # documented default of calc_modulation_buffer
+
+
+def rise_of(bw) -> int:
+    """`Channel.rise_time` / `BaseEOM.rise_time` from the constructor argument: int(0.48 / bw * 1e3) ns."""
+    return int(MODBW_TO_TR / bw * 1e3) if bw else 0
+
+
+def ref_apply(x: np.ndarray, bw: float) -> np.ndarray:
+    """The documented transfer function exp(-f^2/fc^2), fc = bw*1e-3/sqrt(ln 2), with numpy's FFT."""
+    x = np.asarray(x, dtype=float)
+    if x.size == 0:
+        return x
+    fc = bw * 1e-3 / math.sqrt(math.log(2))
+    f = np.fft.fftfreq(x.size)
+    return np.fft.ifft(np.fft.fft(x) * np.exp(-(f ** 2) / fc ** 2)).real
+
+
+def ref_modulate(x: np.ndarray, fbw, pad: int, rise: int, keep: bool) -> np.ndarray:
+    """Channel.modulate as documented: `pad` samples at each end (zeros, or the end values and
+    `rise` more samples that are cut off again when keep_ends), then the filter."""
+    x = np.asarray(x, dtype=float)
+    if not fbw:
+        return x
+    if keep:
+        y = ref_apply(np.pad(x, pad + rise, mode="edge" if x.size else "constant"), fbw)
+        return y[rise: len(y) - rise]
+    return ref_apply(np.pad(x, pad), fbw)
+
+
+def ref_buffers(x: np.ndarray, mod: np.ndarray, tr: int):
+    """The rule written in calc_modulation_buffer: compare the zero-padded input with the modulated
+    samples; start buffer = up to the last start-region sample within the allowed difference, end
+    buffer = one past the last end-region sample above it.  Third value: distance of the closest
+    sample to the threshold (a comparison is skipped when two FFTs could disagree on it)."""
+    d = np.abs(np.pad(np.asarray(x, dtype=float), tr) - mod)
+    below = d <= MAX_ALLOWED_DIFF
+    idx = np.flatnonzero(below[:tr])
+    start = tr - int(idx[-1]) - 1 if idx.size else tr
+    above = np.flatnonzero(~below[len(d) - tr:]) if tr else np.zeros(0)
+    end = int(above[-1]) + 1 if above.size else 0
+    region = np.concatenate([d[:tr], d[len(d) - tr:]]) if tr else np.zeros(0)
+    margin = float(np.min(np.abs(region - MAX_ALLOWED_DIFF))) if region.size else 1.0
+    return start, end, margin
+
+
+def ref_fall(amp: np.ndarray, det: np.ndarray, fbw, tr: int):
+    """Pulse.fall_time as documented: one rise time + the larger end buffer of amplitude and detuning."""
+    ends, margin = [], 1.0
+    for x in (amp, det):
+        _, e, m = ref_buffers(x, ref_modulate(x, fbw, tr, tr, False), tr)
+        ends.append(e)
+        margin = min(margin, m)
+    return tr + max(ends), margin
+
+
 def real_arr(a) -> np.ndarray:
     return np.asarray(a.as_array(detach=True) if hasattr(a, "as_array") else a, dtype=float)
 
@@ -221,8 +281,12 @@ def run_chmod(drv, case):
     fails = []
     if not np.all(np.isfinite(x)):
         return fails, None, False
-    tr = ch.rise_time
-    pad = ch.eom_config.rise_time if eom else tr
+    tr = rise_of(bw)
+    pad = rise_of(eom_bw) if eom else tr
+    if ch.rise_time != tr or (eom_bw and ch.eom_config.rise_time != rise_of(eom_bw)):
+        fails.append(Fail("rise-time-formula", f"rise_time {ch.rise_time} (EOM "
+                          f"{ch.eom_config.rise_time if eom_bw else None}) but int(0.48/bw*1e3) = {tr} "
+                          f"(EOM {rise_of(eom_bw) if eom_bw else None}) for bw {bw} / {eom_bw}"))
     if bw and tr < 1:
         fails.append(Fail("rise-time-positive", f"mod_bandwidth {bw} gives rise_time {tr}"))
     if bw and 1.0 <= bw <= 100 and case.get("physical_rise"):
@@ -256,6 +320,10 @@ def run_chmod(drv, case):
         elif not keep and (bw or eom) and len(x):
             if abs(np.sum(out) - np.sum(x)) > 1e-9 * max(float(np.sum(np.abs(x))), 1e-300):
                 fails.append(Fail("integral", f"Channel.modulate: sum {np.sum(x)} -> {np.sum(out)}"))
+        ref = ref_modulate(x, (eom_bw if eom else bw), pad, tr, keep)
+        if len(ref) == len(out) and not allclose(out, ref, TOL, (float(np.max(np.abs(x))) if len(x) else 1.0) or 1.0):
+            fails.append(Fail("modulate-values", f"Channel.modulate differs from the documented filter by "
+                                                 f"{np.max(np.abs(out - ref))} (bw {bw}, eom {eom}, keep_ends {keep})"))
     div = None
     padded = len(x) + 2 * (pad + (tr if keep else 0))
     if drv is not None and padded <= MAX_N:
@@ -286,24 +354,37 @@ def run_wfmod(drv, case):
             return [], None, False
         if not W16.finite(w):
             return [], None, False
-        tr_buf = ch.eom_config.rise_time if eom else ch.rise_time
-        tr = ch.rise_time
-        start, end = w.modulation_buffers(ch, eom=eom)
-        full = real_arr(w._modulated_samples(ch, eom=eom))
+        tr_buf = rise_of(case["eom_bw"]) if eom else rise_of(case["bw"])
+        x = W16.arr(w)
+        n_in = len(x)
+        fbw = case["eom_bw"] if eom else case["bw"]
+        got_buf = tuple(int(v) for v in w.modulation_buffers(ch, eom=eom))
+        got_full = real_arr(w._modulated_samples(ch, eom=eom))
         fails = []
-        if not (0 <= start <= tr_buf and 0 <= end <= tr_buf):
-            fails.append(Fail("buffers-range", f"modulation buffers ({start},{end}) outside [0, {tr_buf}]"))
+        # expected values: the documented filter and buffer rule, recomputed here
+        full = ref_modulate(x, fbw, tr_buf, rise_of(case["bw"]), False)
+        start, end, margin = ref_buffers(x, full, tr_buf)
+        if len(got_full) != len(full) or not allclose(got_full, full, TOL, float(np.max(np.abs(x))) or 1.0):
+            fails.append(Fail("modulate-values", f"Waveform._modulated_samples differs from the documented filter "
+                                                 f"(length {len(got_full)} vs {len(full)})", dict(eom=bool(eom))))
+            return fails, None, True
+        if margin > 1e-7 and got_buf != (start, end):
+            fails.append(Fail("buffers-rule", f"modulation_buffers {got_buf}, documented rule gives ({start},{end}) "
+                                              f"(rise {tr_buf}{', eom' if eom else ''})", dict(eom=bool(eom))))
+        if margin <= 1e-7:
+            start, end = got_buf        # a sample sits on the threshold: either reading is acceptable
+        if not (0 <= got_buf[0] <= tr_buf and 0 <= got_buf[1] <= tr_buf):
+            fails.append(Fail("buffers-range", f"modulation buffers {got_buf} outside [0, {tr_buf}]"))
         # the documented trimming, in the mode asked for: buffers and rise time of the EOM when eom=True
         tr = tr_buf
         out = real_arr(w.modulated_samples(ch, eom=eom))
-        x = W16.arr(w)
         key = dict(eom=bool(eom))
         # property level, independent of the helpers: the output extends the signal (never shorter than the
         # input, at most one rise time more at each end)
-        if not (w.duration <= len(out) <= w.duration + 2 * tr):
+        if not (n_in <= len(out) <= n_in + 2 * tr):
             fails.append(Fail("modulated-samples-extent",
-                              f"{w.duration} input samples -> {len(out)} modulated samples "
-                              f"(rise time {tr}{', eom' if eom else ''}; channel rise time {ch.rise_time})", key))
+                              f"{n_in} input samples -> {len(out)} modulated samples "
+                              f"(rise time {tr}{', eom' if eom else ''}; channel rise time {rise_of(case['bw'])})", key))
         # "preserves the integral" is a statement about modulate(): the untrimmed modulated samples sum to
         # the input in either mode.  Nothing of the kind is claimed (or true) of the trimmed samples: the
         # FFT is circular, so the end tail beyond one rise time re-enters at the start of the window and is
@@ -312,14 +393,14 @@ def run_wfmod(drv, case):
         if abs(float(np.sum(full)) - float(np.sum(x))) > 1e-9 * max(float(np.sum(np.abs(x))), 1e-300):
             fails.append(Fail("integral", f"Waveform._modulated_samples: sum {float(np.sum(x))} -> "
                                           f"{float(np.sum(full))}{' (eom)' if eom else ''}", key))
-        if len(out) != w.duration + start + end:
+        if len(out) != n_in + start + end:
             fails.append(Fail("modulated-samples-length",
-                              f"{w.duration} + buffers ({start},{end}) -> {len(out)}{' (eom)' if eom else ''}", key))
-        elif not np.array_equal(out, full[tr - start: len(full) - tr + end]):
+                              f"{n_in} + buffers ({start},{end}) -> {len(out)}{' (eom)' if eom else ''}", key))
+        elif not allclose(out, full[tr - start: len(full) - tr + end], TOL, float(np.max(np.abs(x))) or 1.0):
             fails.append(Fail("modulated-samples-trim", "modulated_samples is not the documented slice", key))
     div = None
     if drv is not None and len(full) <= MAX_N and not fails:
-        m = decl(drv.ask(f"trim {tr} {start} {end} {encl(full)}").split()[1])
+        m = decl(drv.ask(f"trim {tr} {start} {end} {encl(got_full)}").split()[1])
         if not np.array_equal(m, out):
             div = f"trimModulated: model length {len(m)}, real {len(out)}"
     return fails, div, True
@@ -341,18 +422,23 @@ def run_pulse(drv, case):
             p = Pulse(amp, det, case.get("phase", 0.0))
         except (ValueError, TypeError):
             return [], None, False
-        tr = ch.eom_config.rise_time if eom else ch.rise_time
-        fall = p.fall_time(ch, in_eom_mode=eom)
+        fbw = case["eom_bw"] if eom else case["bw"]
+        tr = rise_of(fbw)
+        fall = int(p.fall_time(ch, in_eom_mode=eom))           # the observable under test
         fails = []
         if not (tr <= fall <= 2 * tr):
             fails.append(Fail("fall-time-range", f"fall_time {fall} outside [rise, 2 rise] = [{tr}, {2 * tr}]"))
-        n = p.duration
+        want_fall, margin = ref_fall(W16.arr(amp), W16.arr(det), fbw, tr)
+        if margin > 1e-7 and fall != want_fall:
+            fails.append(Fail("fall-time-rule", f"fall_time {fall}, documented rule (rise time + larger end buffer of "
+                                                f"amplitude and detuning) gives {want_fall}", dict(eom=bool(eom))))
+        n = len(W16.arr(amp))
         for name, w in (("amplitude", amp), ("detuning", det)):
-            out = real_arr(ch.modulate(W16.arr(w), eom=eom))      # input sample t sits at index t + tr
+            # the residual is read on the documented filter's output; input sample t sits at index t + tr
+            out = ref_modulate(W16.arr(w), fbw, tr, rise_of(case["bw"]), False)
             peak = float(np.max(np.abs(out))) if len(out) else 0.0
             tail = out[n + fall:]
             bound = max(0.01, 0.006 * peak)
-            fbw = case["eom_bw"] if eom else case["bw"]
             # 5 % slack for the 1 ns grid; channels whose rise time 480/bw is truncated to whole ns are keyed apart
             if len(tail) and float(np.max(np.abs(tail))) > 1.05 * bound:
                 fails.append(Fail("residual-beyond-fall-time",
@@ -411,6 +497,30 @@ def build_seq(case):
     return seq, applied
 
 
+def ref_channel_duration(sch):
+    """(duration including fall time, bare duration, threshold margin) of one channel, from its
+    instruction list: the end of the last instruction, or the end of the last pulse plus that
+    pulse's documented fall time (EOM rise time and bandwidth while the channel is in EOM mode)
+    if that is later."""
+    from pulser import Pulse
+
+    slots = list(sch.slots)
+    if not slots:
+        return 0, 0, 1.0
+    dur = int(slots[-1].tf)
+    ch = sch.channel_obj
+    if not ch.mod_bandwidth:
+        return dur, dur, 1.0
+    in_eom = bool(sch.eom_blocks) and sch.eom_blocks[-1].tf is None
+    fbw = ch.eom_config.mod_bandwidth if in_eom else ch.mod_bandwidth
+    tr = rise_of(fbw)
+    for sl in reversed(slots):
+        if isinstance(sl.type, Pulse):
+            fall, margin = ref_fall(W16.arr(sl.type.amplitude), W16.arr(sl.type.detuning), fbw, tr)
+            return max(dur, int(sl.tf) + fall), dur, margin
+    return dur, dur, 1.0
+
+
 def run_seq(drv, case):
     """sample(seq, modulation=True) succeeds whenever plain sampling does; arrays end at the
     channel duration including fall time (or at extended_duration)."""
@@ -440,23 +550,33 @@ def run_seq(drv, case):
             for name, sch in seq._schedule.items():
                 cs = mod.channel_samples[name]
                 ch = sch.channel_obj
-                want = ext or sch.get_duration(include_fall_time=True)
+                dwf_ref, dur_ref, dmargin = ref_channel_duration(sch)
+                want = ext or dwf_ref
+                if dmargin > 1e-7 and sch.get_duration(include_fall_time=True) != dwf_ref:
+                    fails.append(Fail("duration-with-fall-rule",
+                                      f"channel {name}: get_duration(include_fall_time=True) = "
+                                      f"{sch.get_duration(include_fall_time=True)}, end of the last instruction / last "
+                                      f"pulse + documented fall time = {dwf_ref}", dict(eom=bool(sch.eom_blocks))))
+                if dmargin <= 1e-7:
+                    want = ext or sch.get_duration(include_fall_time=True)
                 lens = (len(cs.amp), len(cs.det), len(cs.phase))
                 if lens != (want,) * 3:
                     fails.append(Fail("modulated-sampling-length",
                                       f"channel {name}: arrays {lens}, duration incl. fall time {want}",
                                       dict(eom=bool(sch.eom_blocks))))
-                dur, dwf = sch.get_duration(), sch.get_duration(include_fall_time=True)
-                if not (dur <= dwf <= dur + 2 * max(ch.rise_time, ch.eom_config.rise_time if ch.eom_config else 0)):
+                dur, dwf = dur_ref, (want if not ext else dwf_ref)
+                cbw = ch.mod_bandwidth
+                ebw = ch.eom_config.mod_bandwidth if ch.eom_config else None
+                if not (dur <= dwf <= dur + 2 * max(rise_of(cbw), rise_of(ebw))):
                     fails.append(Fail("fall-time-range", f"channel {name}: duration {dur}, with fall time {dwf}, "
-                                                         f"rise {ch.rise_time}"))
+                                                         f"rise {rise_of(cbw)}"))
                 if drv is not None and not sch.eom_blocks and not fails:
                     pcs = plain.channel_samples[name]
                     pa, pd, pp = real_arr(pcs.amp), real_arr(pcs.det), real_arr(pcs.phase)
                     if ext:                         # the model extends itself; hand it the un-extended arrays
                         raw = sample(seq).channel_samples[name]
                         pa, pd, pp = real_arr(raw.amp), real_arr(raw.det), real_arr(raw.phase)
-                    tr = ch.rise_time
+                    tr = rise_of(ch.mod_bandwidth)
                     if len(pa) + 4 * tr + (ext or 0) <= MAX_N:
                         r = drv.ask(f"sample {int(bool(ch.mod_bandwidth))} {tr} {tr} 1 {ext or 0} {dwf} "
                                     f"{enc(ch.mod_bandwidth or 1.0)} {encl(pa)} {encl(pd)} {encl(pp)}")
@@ -473,7 +593,7 @@ def run_seq(drv, case):
         elif drv is not None and empty_bw:
             # the model must fail exactly there too
             sch = seq._schedule[empty_bw[0]]
-            tr = sch.channel_obj.rise_time
+            tr = rise_of(sch.channel_obj.mod_bandwidth)
             r = drv.ask(f"sample 1 {tr} {tr} 1 0 0 {enc(sch.channel_obj.mod_bandwidth)} [] [] []")
             if r != "err":
                 div = "model samples the empty channel, real raises"
